@@ -455,6 +455,7 @@ pub fn check_accepted(req: &Request, before: &ConfigState, after: &ConfigState) 
             let new = TcpFrontend { cluster_id: f.cluster_id.clone(), address: f.address.into(), tags: f.tags.clone() };
             let mut want = before.tcp_fronts.get(&f.cluster_id).cloned().unwrap_or_default();
             post(!want.iter().any(|x| x.address == new.address), "accepted although the cluster had a frontend at that address");
+            post(!before.tcp_fronts.iter().any(|(c, v)| *c != f.cluster_id && v.iter().any(|x| x.address == new.address)), "accepted although the address is bound to another cluster");
             want.push(new);
             post(after.tcp_fronts.get(&f.cluster_id) == Some(&want), "bucket is not (old bucket followed by the new frontend)");
         }
@@ -462,6 +463,7 @@ pub fn check_accepted(req: &Request, before: &ConfigState, after: &ConfigState) 
             let new = UdpFrontend { cluster_id: f.cluster_id.clone(), address: f.address.into(), tags: f.tags.clone() };
             let mut want = before.udp_fronts.get(&f.cluster_id).cloned().unwrap_or_default();
             post(!want.iter().any(|x| x.address == new.address), "accepted although the cluster had a frontend at that address");
+            post(!before.udp_fronts.iter().any(|(c, v)| *c != f.cluster_id && v.iter().any(|x| x.address == new.address)), "accepted although the address is bound to another cluster");
             want.push(new);
             post(after.udp_fronts.get(&f.cluster_id) == Some(&want), "bucket is not (old bucket followed by the new frontend)");
         }
